@@ -41,6 +41,7 @@ ESub(a, b) == <<"sub", a, b, 0>>     \* a - b
 EModC(a, c) == <<"modc", a, "", c>>  \* a % c  (Python: sign of the divisor)
 ENeg(a) == <<"neg", a, "", 0>>       \* -a
 ECall2(a, b, c) == <<"call2", a, b, c>>   \* g(a, c, b) with  def g(x, k: int, y): return x * k + y   (attribute between tensors)
+ECall2L(a) == <<"call2l", a, "", 0>>  \* g(a, 3, 5): literals in the attribute AND in a tensor position (= a*3 + 5)
 EIdx(c) == <<"idx", "", "", c>>      \* op.Squeeze(v[c:c+1]) on the vector parameter v = [5, 7, 11] (Slice path of subscripting)
 VParam == <<5, 7, 11>>
 ELt(a, c) == <<"lt", a, "", c>>      \* a < c   (bool as 0/1)
@@ -61,6 +62,7 @@ EvalE(e, env) ==
          [] e[1] = "modc" -> env[e[2]] % e[4]
          [] e[1] = "neg" -> 0 - env[e[2]]
          [] e[1] = "call2" -> env[e[2]] * e[4] + env[e[3]]
+         [] e[1] = "call2l" -> env[e[2]] * 3 + 5
          [] e[1] = "idx" -> VParam[e[4] + 1]
          [] e[1] = "lt" -> IF env[e[2]] < e[4] THEN 1 ELSE 0
          [] e[1] = "gt" -> IF env[e[2]] > e[4] THEN 1 ELSE 0
@@ -235,7 +237,7 @@ GExec(s, env, out, devs) ==
 AsgMenu == LET base == {EV("a"), EV("x"), EV("y"), EAddC("x", 1), EAddC("y", 1), EMul("x", "y"), EAdd("x", "a")}
                rich == {ECall("x"), EAttr("y"), EAddC("a", -1), EAddC("x", -1)} \cup {EAdd("y", stack[d].v) : d \in {d \in 1..Len(stack) : stack[d].k = "for"}}
                tiny == {EV("a"), EAddC("x", 1), EMul("x", "y"), EV("y")}     \* small alphabet for deeper exhaustive structure
-               ops == {EV("a"), EAddC("x", 1), EIdx(1), EIdx(2), ECall2("x", "y", 3), EModC("x", 3), ENeg("y")}   \* other operators / call forms
+               ops == {EV("a"), EAddC("x", 1), EIdx(1), EIdx(2), ECall2("x", "y", 3), ECall2L("x"), EModC("x", 3), ENeg("y")}   \* other operators / call forms
            IN [v : AVars, e : IF Ops THEN ops ELSE IF Tiny THEN tiny ELSE IF Rich THEN base \cup rich \cup ops ELSE base]
 Bounds == {EV("n"), EV("x"), EC(2)}
 CondVars == {"a", "x", "y"}
